@@ -131,6 +131,108 @@ Theorem C04_two_unsew_vertex_data_both `{Sig} : forall E n ks l c w cnt w' cnt',
 Proof. exact two_unsew_vertex_data_both. Qed.
 Print Assumptions C04_two_unsew_vertex_data_both.
 
+(** Data clause for the other attribute kinds.  [attrs_effect ks c w w' l r out]: for every registered kind bound to the
+    cell kind [c], slot [out] of [w'] carries the kind's own lawful merge of slots [l], [r] of [w] (which exists), the
+    two former slots are emptied unless one of them is [out], the other slots of the kind are untouched, and every kind
+    not bound to [c] is untouched altogether; [attrs_split_effect] is the mirror image.  The kinds are registered once
+    each ([NoDup]).  1-sew / 1-unsew: vertex-bound kinds under the same identifiers as the coordinates; 2-sew /
+    2-unsew: edge-bound kinds always (new edge identifier = orbit minimum [is_eid]), vertex-bound kinds at the ends
+    that meet -- successive effects through intermediate stores, in the order the code applies them. *)
+From HC Require Import Map2.SewAttr.
+Theorem C04_one_sew_attr_data `{Sig} : forall E n ks l r c w cnt w' cnt',
+  dom_ok E n -> wf2 n w -> okd n w l -> okd n w r -> beta w 2 l <> 0 -> NoDup (map fst ks) ->
+  run E (one_sew n ks l r) c w cnt = (Done tt, w', cnt') ->
+  exists i1 i2 i',
+    is_vid n w (beta w 2 l) i1 /\ is_vid n w r i2 /\ is_vid n (set1 w l r) r i' /\
+    attrs_effect ks KVertex w w' i1 i2 i'.
+Proof. exact one_sew_attr_data. Qed.
+Print Assumptions C04_one_sew_attr_data.
+
+Theorem C04_one_unsew_attr_data `{Sig} : forall E n ks l c w cnt w' cnt',
+  dom_ok E n -> wf2 n w -> okd n w l -> beta w 2 l <> 0 -> beta w 1 l <> 0 -> NoDup (map fst ks) ->
+  run E (one_unsew n ks l) c w cnt = (Done tt, w', cnt') ->
+  let r := beta w 1 l in let w1 := clr1 w l r in
+  exists i0 il ir,
+    is_vid n w r i0 /\ is_vid n w1 (beta w 2 l) il /\ is_vid n w1 r ir /\
+    attrs_split_effect ks KVertex w w' il ir i0.
+Proof. exact one_unsew_attr_data. Qed.
+Print Assumptions C04_one_unsew_attr_data.
+
+Theorem C04_two_sew_attr_data_none `{Sig} : forall E n ks l r c w cnt w' cnt',
+  dom_ok E n -> wf2 n w -> okd n w l -> okd n w r -> l <> r -> beta w 1 l = 0 -> beta w 1 r = 0 -> NoDup (map fst ks) ->
+  run E (two_sew n ks l r) c w cnt = (Done tt, w', cnt') ->
+  exists en, is_eid n (set2 w l r) l en /\ attrs_effect ks KEdge w w' l r en.
+Proof. exact two_sew_attr_data_none. Qed.
+Print Assumptions C04_two_sew_attr_data_none.
+
+Theorem C04_two_sew_attr_data_left `{Sig} : forall E n ks l r c w cnt w' cnt',
+  dom_ok E n -> wf2 n w -> okd n w l -> okd n w r -> l <> r -> beta w 1 l = 0 -> beta w 1 r <> 0 -> NoDup (map fst ks) ->
+  run E (two_sew n ks l r) c w cnt = (Done tt, w', cnt') ->
+  exists i1 i2 i' en wa,
+    is_vid n w l i1 /\ is_vid n w (beta w 1 r) i2 /\ is_vid n (set2 w l r) l i' /\ is_eid n (set2 w l r) l en /\
+    attrs_effect ks KVertex w wa i1 i2 i' /\ attrs_effect ks KEdge wa w' l r en.
+Proof. exact two_sew_attr_data_left. Qed.
+Print Assumptions C04_two_sew_attr_data_left.
+
+Theorem C04_two_sew_attr_data_right `{Sig} : forall E n ks l r c w cnt w' cnt',
+  dom_ok E n -> wf2 n w -> okd n w l -> okd n w r -> l <> r -> beta w 1 l <> 0 -> beta w 1 r = 0 -> NoDup (map fst ks) ->
+  run E (two_sew n ks l r) c w cnt = (Done tt, w', cnt') ->
+  exists i1 i2 i' en wa,
+    is_vid n w (beta w 1 l) i1 /\ is_vid n w r i2 /\ is_vid n (set2 w l r) r i' /\ is_eid n (set2 w l r) l en /\
+    attrs_effect ks KVertex w wa i1 i2 i' /\ attrs_effect ks KEdge wa w' l r en.
+Proof. exact two_sew_attr_data_right. Qed.
+Print Assumptions C04_two_sew_attr_data_right.
+
+Theorem C04_two_sew_attr_data_both `{Sig} : forall E n ks l r c w cnt w' cnt',
+  dom_ok E n -> wf2 n w -> okd n w l -> okd n w r -> l <> r -> beta w 1 l <> 0 -> beta w 1 r <> 0 -> NoDup (map fst ks) ->
+  run E (two_sew n ks l r) c w cnt = (Done tt, w', cnt') ->
+  exists i1 i2 i3 i4 iL iR en wa wb,
+    is_vid n w l i1 /\ is_vid n w (beta w 1 r) i2 /\ is_vid n w (beta w 1 l) i3 /\ is_vid n w r i4 /\
+    is_vid n (set2 w l r) l iL /\ is_vid n (set2 w l r) r iR /\ is_eid n (set2 w l r) l en /\
+    attrs_effect ks KVertex w wa i1 i2 iL /\ attrs_effect ks KVertex wa wb i3 i4 iR /\ attrs_effect ks KEdge wb w' l r en.
+Proof. exact two_sew_attr_data_both. Qed.
+Print Assumptions C04_two_sew_attr_data_both.
+
+Theorem C04_two_unsew_attr_data_none `{Sig} : forall E n ks l c w cnt w' cnt',
+  dom_ok E n -> wf2 n w -> okd n w l -> beta w 2 l <> 0 -> beta w 1 l = 0 -> beta w 1 (beta w 2 l) = 0 -> NoDup (map fst ks) ->
+  run E (two_unsew n ks l) c w cnt = (Done tt, w', cnt') ->
+  let r := beta w 2 l in let w1 := clr2 w l r in
+  exists eo, is_eid n w l eo /\ attrs_split_effect ks KEdge w w' l r eo.
+Proof. exact two_unsew_attr_data_none. Qed.
+Print Assumptions C04_two_unsew_attr_data_none.
+
+Theorem C04_two_unsew_attr_data_left `{Sig} : forall E n ks l c w cnt w' cnt',
+  dom_ok E n -> wf2 n w -> okd n w l -> beta w 2 l <> 0 -> beta w 1 l = 0 -> beta w 1 (beta w 2 l) <> 0 -> NoDup (map fst ks) ->
+  run E (two_unsew n ks l) c w cnt = (Done tt, w', cnt') ->
+  let r := beta w 2 l in let w1 := clr2 w l r in
+  exists eo i0 il ir wa,
+    is_eid n w l eo /\ is_vid n w l i0 /\ is_vid n w1 l il /\ is_vid n w1 (beta w 1 r) ir /\
+    attrs_split_effect ks KEdge w wa l r eo /\ attrs_split_effect ks KVertex wa w' il ir i0.
+Proof. exact two_unsew_attr_data_left. Qed.
+Print Assumptions C04_two_unsew_attr_data_left.
+
+Theorem C04_two_unsew_attr_data_right `{Sig} : forall E n ks l c w cnt w' cnt',
+  dom_ok E n -> wf2 n w -> okd n w l -> beta w 2 l <> 0 -> beta w 1 l <> 0 -> beta w 1 (beta w 2 l) = 0 -> NoDup (map fst ks) ->
+  run E (two_unsew n ks l) c w cnt = (Done tt, w', cnt') ->
+  let r := beta w 2 l in let w1 := clr2 w l r in
+  exists eo i0 il ir wa,
+    is_eid n w l eo /\ is_vid n w r i0 /\ is_vid n w1 (beta w 1 l) il /\ is_vid n w1 r ir /\
+    attrs_split_effect ks KEdge w wa l r eo /\ attrs_split_effect ks KVertex wa w' il ir i0.
+Proof. exact two_unsew_attr_data_right. Qed.
+Print Assumptions C04_two_unsew_attr_data_right.
+
+Theorem C04_two_unsew_attr_data_both `{Sig} : forall E n ks l c w cnt w' cnt',
+  dom_ok E n -> wf2 n w -> okd n w l -> beta w 2 l <> 0 -> beta w 1 l <> 0 -> beta w 1 (beta w 2 l) <> 0 -> NoDup (map fst ks) ->
+  run E (two_unsew n ks l) c w cnt = (Done tt, w', cnt') ->
+  let r := beta w 2 l in let w1 := clr2 w l r in
+  exists eo j0 jl jr k0 kl kr wa wb,
+    is_eid n w l eo /\ is_vid n w l j0 /\ is_vid n w r k0 /\
+    is_vid n w1 l jl /\ is_vid n w1 (beta w 1 r) jr /\ is_vid n w1 (beta w 1 l) kl /\ is_vid n w1 r kr /\
+    attrs_split_effect ks KEdge w wa l r eo /\ attrs_split_effect ks KVertex wa wb jl jr j0 /\ attrs_split_effect ks KVertex wb w' kl kr k0.
+Proof. exact two_unsew_attr_data_both. Qed.
+Print Assumptions C04_two_unsew_attr_data_both.
+
+
 (** Tie to the source: the four programs [one_sew], [one_unsew], [two_sew], [two_unsew] about which the theorems above
     speak are, verbatim, the programs that tools/tr_sews.py regenerates from dim2/sews/one.rs and two.rs on every run
     (Map2/GenSews.v); an edit of those functions changes the generated file and this theorem stops compiling. *)
